@@ -151,6 +151,8 @@ class C03(Property):
     # ------------------------------------------------------------------ generation
     def gen_aftermath(self, world, step, rng):
         """a write of a list failed: the list object is still in the caller's hands and is exported again"""
+        if rng.chance(0.5):
+            yield from Property.gen_aftermath(self, world, step, rng)      # the plain retry
         hs = world.session(step.get("sess")) if step.get("sess") else {}
         src = step.get("src")
         if src in hs and hs[src].get("kind") == "rln":
